@@ -40,13 +40,25 @@ func (l *UnwrapAggPlanner) addValue(ctx *shared.PlannerContext, entry *shared.Lo
 			stream.values[idx+1] = 1
 		}
 	case "first_over_time":
-		if stream.values[idx] == 0 {
+		// "first" and "last" are defined by the entry timestamps, not by the order of arrival (the upstream is
+		// ordered newest first unless direction=forward); values[idx+1] tells whether the bucket has a value yet
+		if stream.stamps == nil {
+			stream.stamps = make([]int64, len(stream.values)/2)
+		}
+		if stream.values[idx+1] == 0 || entry.TimestampNS < stream.stamps[idx/2] {
 			stream.values[idx] = entry.Value
 			stream.values[idx+1] = 1
+			stream.stamps[idx/2] = entry.TimestampNS
 		}
 	case "last_over_time":
-		stream.values[idx] = entry.Value
-		stream.values[idx+1] = 1
+		if stream.stamps == nil {
+			stream.stamps = make([]int64, len(stream.values)/2)
+		}
+		if stream.values[idx+1] == 0 || entry.TimestampNS >= stream.stamps[idx/2] {
+			stream.values[idx] = entry.Value
+			stream.values[idx+1] = 1
+			stream.stamps[idx/2] = entry.TimestampNS
+		}
 	}
 }
 
